@@ -603,6 +603,9 @@ func Rename(oldpath, newpath string) error {
 			return fail(syscall.EINVAL)
 		}
 	}
+	if f.devOf(ro.real) != f.devOf(rn.real) {
+		return fail(syscall.EXDEV)
+	}
 	if !f.mayWrite(ro.parent) || !f.mayWrite(rn.parent) {
 		return fail(syscall.EACCES)
 	}
@@ -666,6 +669,9 @@ func Link(oldname, newname string) error {
 	}
 	if ro.node.kind == kDir {
 		return fail(syscall.EPERM)
+	}
+	if f.devOf(ro.real) != f.devOf(rn.real) {
+		return fail(syscall.EXDEV)
 	}
 	rn.parent.ents[rn.name] = ro.node
 	f.addPend(&dirOp{kind: "link", dir: rn.parent, name: rn.name, node: ro.node})
